@@ -155,4 +155,5 @@ package snapshot
 //@   results n, err
 //@   requires s.Stream != nil
 //@   ensures [C18.chunk.recv] err == nil ==> s.Stream.nrecv == old(s.Stream.nrecv) + 1 && n == blen(s.Stream.rdata[old(s.Stream.nrecv)]) && n <= len(p) && bytesOf(p[:n]) == s.Stream.rdata[old(s.Stream.nrecv)]
+//@   ensures [C18.chunk.fits] s.Stream.nrecv == old(s.Stream.nrecv) + 1 && 0 < blen(s.Stream.rdata[old(s.Stream.nrecv)]) && blen(s.Stream.rdata[old(s.Stream.nrecv)]) <= len(p) ==> err == nil      // a received chunk that fits - also exactly - is delivered, never refused
 //@   modifies s.Stream.nrecv, elems(p), allelems(uint8)
